@@ -26,12 +26,35 @@ def _self_type(ctx, body):
     return b.rec.get("impl_self") or fn.rsplit("::", 1)[0]
 
 
+SLOT_WRITE = ("MaybeUninit::<T>::write",)
+SLOT_READ = ("MaybeUninit::<T>::assume_init_read", "MaybeUninit::<T>::assume_init_drop", "MaybeUninit::<T>::assume_init")
+
+
+def _ring_methods(ctx, slot_calls):
+    """methods of SpscRing that touch a slot in the given way (a new `push_overwrite` is a producer too)"""
+    out = set()
+    for b in ctx.facts.bodies(prefix="media::spsc::SpscRing::<T>::"):
+        if "::{closure" in b.name:
+            continue
+        if b.name.endswith(("::drop", "::new")):
+            continue
+        if any(p and p.endswith(slot_calls) for _bi, _t, p in b.calls()):
+            out.add(b.name)
+        # ... or that moves the index of that end (advancing `head` is a consumer action whoever does it)
+        idx = "tail" if slot_calls is SLOT_WRITE else "head"
+        if core.atomic_sites(b, idx, "store"):
+            out.add(b.name)
+    return out
+
+
 def _sites(ctx, callee):
+    callees = {callee}
+    callees |= _ring_methods(ctx, SLOT_WRITE if callee == PUSH else SLOT_READ)
     out = []
     for body in ctx.facts.all_bodies():
         if body.name.startswith("media::spsc::"):
             continue
-        for bi, t, path in core.calls_to(body, lambda p: p == callee):
+        for bi, t, path in core.calls_to(body, lambda p: p in callees):
             out.append((body, bi, t))
     return out
 
@@ -197,6 +220,44 @@ def r20_3(ctx):
     return r
 
 
+def r20_6(ctx):
+    """'never ... leak samples' (the drop balance of the payload buffers): a slot of the ring is a MaybeUninit - writing
+    it does not drop what it held. Every slot write therefore has to happen where the slot is known to be vacant: on the
+    not-full edge of the `tail - head >= capacity` test, or after the same function has read / dropped that slot. A
+    drop-oldest "overwrite in place" that writes the oldest element's slot directly leaks one sample per overflow (its
+    Bytes payload, raw packet and header extension)."""
+    r = RuleResult("R20.6", "K1", "a ring slot is written only when it is vacant")
+    n = 0
+    for name in sorted(_ring_methods(ctx, SLOT_WRITE)):
+        b = ctx.body(name)
+        r.scope.append(name)
+        writes = [bi for bi, t, p in b.calls() if p and p.endswith(SLOT_WRITE)]
+        reads = [bi for bi, t, p in b.calls() if p and p.endswith(SLOT_READ + ("ptr::drop_in_place",))]
+
+        def not_full(term, meaning, *_):
+            t, neg = term, False
+            while t[0] == "un" and t[1] == "Not":
+                t, neg = t[2], not neg
+            if t[0] == "bin" and t[1] in ("Ge", "Gt", "Eq", "Lt", "Le", "Ne") and isinstance(meaning, bool) and \
+                    mir.has_field(t, "capacity") and mir.has(t, lambda x: core.is_atomic_load(x, "tail")) and mir.has(t, lambda x: core.is_atomic_load(x, "head")):
+                full_when_true = t[1] in ("Ge", "Gt", "Eq")
+                return (meaning != neg) is (not full_when_true)
+            return False
+        g = core.lift_guards(b, core.guard_edges(b, not_full))
+        for bi in writes:
+            n += 1
+            if g and core.k1(b, [bi], g)[bi] is None:
+                r.ok({"site": b.where(bi), "vacant": "on the not-full edge"})
+            elif reads and core.must_pass(b, bi, reads):
+                r.ok({"site": b.where(bi), "vacant": "the slot was read / dropped first"})
+            else:
+                r.violate(name, "slot-write:occupied", b.where(bi),
+                          "the slot is written on a path where the ring may be full and nothing has taken the old element out: "
+                          "MaybeUninit::write does not drop it - the evicted sample (payload buffers included) is leaked")
+    r.need("slot writes in SpscRing", n, 1)
+    return r
+
+
 def r20_4(ctx):
     r = RuleResult("R20.4", "K6+K4+K1", "Send/Sync bounds, sender accounting, drain before end-of-stream")
     n = 0
@@ -354,4 +415,4 @@ def r20_5(ctx):
 
 
 def run(ctx):
-    return [r20_1(ctx), r20_2(ctx), r20_3(ctx), r20_4(ctx), r20_5(ctx)]
+    return [r20_1(ctx), r20_2(ctx), r20_3(ctx), r20_4(ctx), r20_5(ctx), r20_6(ctx)]
